@@ -44,6 +44,21 @@ pub struct LFile {
 }
 
 impl LFile {
+    /// What line `n` (1-based) is, for comparing the two sides of a positional `-`/`+` pairing:
+    /// outside, a tag-comment line of block i, or content of the innermost block i.
+    pub fn line_class(&self, n: usize) -> String {
+        match &self.lines[n - 1].label {
+            Label::Outside => "outside".to_string(),
+            Label::Start(id, _) | Label::End(id) => format!("tag:{id}"),
+            Label::Content => {
+                let inner = self.spans().into_iter().filter(|(_, _, s2, e1, _)| *s2 < n && n < *e1).max_by_key(|(_, s1, ..)| *s1);
+                match inner {
+                    Some((id, ..)) => format!("content:{id}"),
+                    None => "outside".to_string(),
+                }
+            }
+        }
+    }
     pub fn text(&self) -> String {
         let mut s = self.lines.iter().map(|l| l.text.as_str()).collect::<Vec<_>>().join("\n");
         if self.trailing_newline && !self.lines.is_empty() {
@@ -374,6 +389,8 @@ pub struct FileDiff {
     pub minus: Vec<usize>,
     /// 1-based new-file line numbers of `+` lines.
     pub plus: Vec<usize>,
+    /// Change groups in order: a maximal run of `-` lines followed by a maximal run of `+` lines.
+    pub groups: Vec<(Vec<usize>, Vec<usize>)>,
 }
 
 /// Reads a unified diff using the `@@ -a,b +c,d @@` counts only, so payload lines that look like
@@ -427,26 +444,38 @@ pub fn read_diff(diff: &str) -> Result<Vec<FileDiff>, String> {
             let (new_start, new_len) = parse(new)?;
             let cur = out.last_mut().ok_or("hunk before file header")?;
             let (mut o, mut n) = (0usize, 0usize);
+            let mut group: (Vec<usize>, Vec<usize>) = (Vec::new(), Vec::new());
             i += 1;
             while (o < old_len || n < new_len) && i < lines.len() {
                 let h = lines[i];
                 match h.as_bytes().first() {
                     Some(b' ') | None => {
+                        if !group.0.is_empty() || !group.1.is_empty() {
+                            cur.groups.push(std::mem::take(&mut group));
+                        }
                         o += 1;
                         n += 1;
                     }
                     Some(b'-') => {
+                        if !group.1.is_empty() {
+                            cur.groups.push(std::mem::take(&mut group));
+                        }
                         cur.minus.push(old_start + o);
+                        group.0.push(old_start + o);
                         o += 1;
                     }
                     Some(b'+') => {
                         cur.plus.push(new_start + n);
+                        group.1.push(new_start + n);
                         n += 1;
                     }
                     Some(b'\\') => {}
                     _ => return Err(format!("unexpected hunk line {h:?}")),
                 }
                 i += 1;
+            }
+            if !group.0.is_empty() || !group.1.is_empty() {
+                cur.groups.push(group);
             }
             // A pure insertion/deletion hunk at line 0 reports start 0; positions are then 1-based
             // already because counting starts at start+0 with start = 0 only when len = 0.
